@@ -3,6 +3,9 @@ package c19
 import (
 	"context"
 	"fmt"
+	beacon "github.com/oasisprotocol/oasis-core/go/beacon/api"
+	"github.com/oasisprotocol/oasis-core/go/common/crypto/hash"
+	cmtbeacon "github.com/oasisprotocol/oasis-core/go/consensus/cometbft/beacon"
 	"os"
 	"path/filepath"
 	"strings"
@@ -158,6 +161,25 @@ func TestC19Watcher(t *testing.T) {
 		ctx, cancel := context.WithCancel(root)
 		defer cancel()
 		core := stateless.NewCore(prov, client, stateless.Config{})
+		core.SetQueriers(stubBeacon{}, nil, nil)
+		// what the node reports as ITS latest block is provider data too: at any moment it is the recorded block (the only
+		// height the harness can verify) or nothing - also before the first announcement, when no block has been verified yet
+		checkStatus := func(when string) {
+			st, err := core.GetStatus(ctx)
+			if err != nil {
+				rec.Label("status:error")
+				return
+			}
+			if st.LatestHeight == 0 && st.LatestHash == (hash.Hash{}) && st.LatestStateRoot.Hash == (hash.Hash{}) {
+				rec.Label("status:" + when + ":no-latest-block")
+				return
+			}
+			rec.Label("status:" + when + ":reports-a-block")
+			if st.LatestHeight != fx.blk.Height || st.LatestHash != fx.blk.Hash || !st.LatestTime.Equal(fx.blk.Time) || st.LatestStateRoot != fx.blk.StateRoot {
+				ev.Violation(t, "unverified-block-delivered", "GetStatus (%s) reports height %d hash %s state root %s (v%d) time %s as the latest block: not the recorded block of height %d; trace=%v", when, st.LatestHeight, st.LatestHash, st.LatestStateRoot.Hash, st.LatestStateRoot.Version, st.LatestTime, fx.blk.Height, trace)
+			}
+		}
+		checkStatus("before-the-first-announcement")
 		served := make(chan error, 1)
 		go func() { served <- core.Serve(ctx) }()
 		ch, sub, err := core.WatchBlocks(ctx)
@@ -239,6 +261,7 @@ func TestC19Watcher(t *testing.T) {
 				break surplus
 			}
 		}
+		checkStatus("after-the-announcements")
 		close(stopCollect)
 		<-collectorDone
 		cancel()
@@ -286,4 +309,23 @@ func firstLine(err error) string {
 		s = s[:160]
 	}
 	return s
+}
+
+// stubBeacon answers the one beacon query GetStatus makes (the epoch); it carries no provider data.
+type stubBeacon struct{}
+
+type stubBeaconQuery struct{}
+
+func (stubBeacon) QueryAt(context.Context, int64) (cmtbeacon.Query, error) {
+	return stubBeaconQuery{}, nil
+}
+func (stubBeaconQuery) Beacon(context.Context) ([]byte, error) { return nil, nil }
+func (stubBeaconQuery) Epoch(context.Context) (beacon.EpochTime, int64, error) {
+	return 1, 1, nil
+}
+func (stubBeaconQuery) FutureEpoch(context.Context) (*beacon.EpochTimeState, error) { return nil, nil }
+func (stubBeaconQuery) VRFState(context.Context) (*beacon.VRFState, error)          { return nil, nil }
+func (stubBeaconQuery) Genesis(context.Context) (*beacon.Genesis, error)            { return nil, nil }
+func (stubBeaconQuery) ConsensusParameters(context.Context) (*beacon.ConsensusParameters, error) {
+	return nil, nil
 }
